@@ -164,3 +164,45 @@ func defIsConstBool(info *types.Info, d localDef) bool {
 	_, ok := constBool(info, d.rhs)
 	return ok
 }
+
+// chainNodes returns the call expression together with the defining expressions of the locals its
+// receiver chain is rooted at (x := a.B(..); x.C(..) is the chain a.B(..).C(..)).
+func chainNodes(f *FuncSrc, call *ast.CallExpr) []ast.Node {
+	out := []ast.Node{call}
+	seen := map[string]bool{}
+	var follow func(e ast.Expr, depth int)
+	follow = func(e ast.Expr, depth int) {
+		if depth > 6 {
+			return
+		}
+		for {
+			switch x := unparen(e).(type) {
+			case *ast.CallExpr:
+				if sel, ok := x.Fun.(*ast.SelectorExpr); ok {
+					e = sel.X
+					continue
+				}
+				return
+			case *ast.SelectorExpr:
+				e = x.X
+				continue
+			case *ast.Ident:
+				if _, isVar := f.Pkg.TypesInfo.Uses[x].(*types.Var); !isVar || seen[x.Name] {
+					return
+				}
+				seen[x.Name] = true
+				// only single-definition locals extend the chain: with several definitions "some
+				// definition has the property" would not mean the value used here has it
+				if ds := localDefs(f, x.Name, x.Pos()); len(ds) == 1 {
+					out = append(out, ds[0].rhs)
+					follow(ds[0].rhs, depth+1)
+				}
+				return
+			default:
+				return
+			}
+		}
+	}
+	follow(call, 0)
+	return out
+}
